@@ -74,3 +74,26 @@ package driver
 //@   callsite concurrentGrab pre: $arg3 != nil
 //@   loop 1
 //@     invariant 0 <= start && start % 128 == 0 && ui != nil
+
+// ---- C19: saving or deleting one named configuration never alters the others ----
+// (the closures editSettings applies to the settings read from the file)
+
+//@ func setConfig$1
+//@   requires s != nil
+//@   ensures saved: result == nil && exists j int :: 0 <= j && j < len(s.Configs) && s.Configs[j].Name == name
+//@   ensures others_name: forall j int :: 0 <= j && j < old(len(s.Configs)) && old(s.Configs[j].Name) != name ==> j < len(s.Configs) && s.Configs[j].Name == old(s.Configs[j].Name)
+//@   ensures slow_others_focus: forall j int :: 0 <= j && j < old(len(s.Configs)) && old(s.Configs[j].Name) != name ==> j < len(s.Configs) && s.Configs[j].Focus == old(s.Configs[j].Focus)
+//@   ensures others_count: forall j int :: 0 <= j && j < old(len(s.Configs)) && old(s.Configs[j].Name) != name ==> j < len(s.Configs) && s.Configs[j].NodeCount == old(s.Configs[j].NodeCount)
+//@   ensures nogrow: len(s.Configs) == old(len(s.Configs)) || (len(s.Configs) == old(len(s.Configs)) + 1 && forall j int :: 0 <= j && j < old(len(s.Configs)) ==> old(s.Configs[j].Name) != name)
+//@   loop 1
+//@     invariant 0 <= $i && $i <= len(s.Configs) && s != nil
+//@     invariant forall j int :: 0 <= j && j < $i ==> s.Configs[j].Name != name
+
+//@ func removeConfig$1
+//@   requires s != nil
+//@   ensures missing: result != nil ==> len(s.Configs) == old(len(s.Configs)) && forall j int :: 0 <= j && j < len(s.Configs) ==> s.Configs[j].Name != config
+//@   ensures removed_len: result == nil ==> len(s.Configs) == old(len(s.Configs)) - 1
+// (which entries survive a removal, element by element, is not decided: the in-place append over an overlapping slice did not discharge)
+//@   loop 1
+//@     invariant 0 <= $i && $i <= len(s.Configs) && s != nil
+//@     invariant forall j int :: 0 <= j && j < $i ==> s.Configs[j].Name != config
